@@ -65,6 +65,7 @@ def run(ctx, mode):
         scheds = []
         for cfg, name, ma, cc, fb, smp in [
                 ("ClientMC_cover.cfg", "transition cover source: 1 start, default retransmission, 1 failing write, 1 response", 7, True, True, 5000 if quick else None),
+                ("ClientMC_cover_deep.cfg", "transition cover source: the whole retransmission chain (7 retransmissions, final timeout), a failing write at any attempt", 7, True, True, None),
                 ("ClientMC_cover_noretx.cfg", "transition cover source: WithNoRetransmit, duplicate response, junk datagram", 0, True, True, 3000 if quick else None),
                 ("ClientMC_cover_noconnclose.cfg", "transition cover source: WithNoConnClose, no fallback handler", 7, False, False, 1500 if quick else None)]:
             s, ns, ne = schedules_from_model(ctx, cfg, name, ma, closeconn=cc, fallback=fb, sample=smp)
@@ -104,7 +105,14 @@ def run(ctx, mode):
                 fh.write(json.dumps({"k": "cfg", "tr": 999999, "maxattempts": 7, "rto": 1, "closeconn": True, "fallback": True}) + "\n")
                 fh.write(json.dumps({"k": "race", "tr": 999999, "report": races[0][:3000]}) + "\n")
         elif rc != 0:
-            raise vlib.Inconclusive("free-running driver failed:\n" + out[-2500:])
+            # a panic inside the library (not in the harness) is the library's doing
+            pm = re.search(r"panic: [^\n]*\n[\s\S]{0,200}?goroutine \d+ \[running\]:\n([\s\S]{0,1500})", out)
+            if pm and re.search(r"/repo/(?!zz_verif)[a-z_]+\.go:\d+", pm.group(1).split("\n\n")[0]) and "zz_verif" not in pm.group(1).split("\n")[1]:
+                with open(ftrace, "a") as fh:
+                    fh.write(json.dumps({"k": "cfg", "tr": 999998, "maxattempts": 7, "rto": 1, "closeconn": True, "fallback": True}) + "\n")
+                    fh.write(json.dumps({"k": "libpanic", "tr": 999998, "report": pm.group(0)[:2500]}) + "\n")
+            else:
+                raise vlib.Inconclusive("free-running driver failed:\n" + out[-2500:])
         ffiles = ctx.shard(ftrace, vlib.NCPU, group_key="tr", prefix="free")
         ctx.validate("ClientTrace", ffiles, env={"VERIF_MODE": mode}, heap_gb=4, timeout=2400)
 
